@@ -130,3 +130,97 @@ Theorem C14_run_steps_only : forall H zh evs st1 st2,
   hm_rel (hm_run H zh st1 evs) (hm_run H zh st2 (steps_only evs)).
 Proof. exact hm_run_steps_only. Qed.
 Print Assumptions C14_run_steps_only.
+
+(* ---------------- 4. fork independence: any interleaving = the fork's sequential run ---------------- *)
+(* Vocabulary (ForkProofs.v, top): handle numbers are global (a new handle gets the number
+   [length handles]), a goroutine holds pointers; so each fork g names its handles locally through
+   its table [tabs g] (local name = position, entry = global handle number).  [loc_op tab lo]
+   translates the handle names in an operation from local to global (None: unknown local name —
+   the event does nothing and yields Err); [out_tab] appends a newly created handle to the table
+   and reports it under its local name.  [fev] = FStep lo | FHash j (hash-tree-root of local
+   handle j); [fobs] = FRes r | FRoot r is what the fork observes.  [runN stp hsh st tabs sch]
+   replays an arbitrary interleaving [sch : list (fork number * fev)] of any number of forks on
+   the machine (stp, hsh) and returns (the trace of (fork, observation), (final state, final
+   tables)); [run1 stp hsh st tab evs] is one fork alone; [proj f] keeps the entries of fork f.
+   [tm_hash H] is root_of of the TM backing, [hm_hash_ev H] is HeapProofs.hm_hash (h_merkle on the
+   heap, memos written).  [forks_ok hs tabs]: the tables contain existing handles, are closed under
+   hook parents (a Copy and everything later obtained from it) and are pairwise disjoint.
+   [fork_view hs tab]: (type, backing) of the fork's handles by local name. *)
+From Ztyp Require Import ForkProofs.
+
+Theorem C14_defs_fork : forall (S : Type) (stp : S -> op -> S * res mout) (hsh : S -> nat -> S * option chunk)
+    (st : S) (tab : list nat) (lo : op) (j : nat) (T : Type) (hs : list (handle T)) (tabs : nat -> list nat),
+  fork_event S stp hsh st tab (FStep lo) =
+    match loc_op tab lo with
+    | None => (st, tab, FRes Err)
+    | Some o => (fst (stp st o), fst (out_tab tab (snd (stp st o))), FRes (snd (out_tab tab (snd (stp st o)))))
+    end /\
+  fork_event S stp hsh st tab (FHash j) =
+    match nth_error tab j with
+    | None => (st, tab, FRoot None)
+    | Some k => (fst (hsh st k), tab, FRoot (snd (hsh st k)))
+    end /\
+  (forks_ok hs tabs <->
+     (forall g k, In k (tabs g) -> (k < length hs)%nat) /\
+     (forall g k x p i, In k (tabs g) -> nth_error hs k = Some x -> h_hook T x = Some (p, i) ->
+                        In p (tabs g)) /\
+     (forall g1 g2 k, g1 <> g2 -> In k (tabs g1) -> ~ In k (tabs g2))).
+Proof. exact fork_defs. Qed.
+Print Assumptions C14_defs_fork.
+
+(* on the pure machine TM: in EVERY interleaving of any number of forks (all operations: sub-views,
+   union values and copies created inside the interleaving included, handle sources, hash
+   requests), the observations of fork f — outputs up to the renumbering of fresh handles, i.e.
+   under local names, and roots — and the final (type, backing) of all its handles are those of
+   f's own events run alone *)
+Theorem C14_fork_outputs_independent : forall H zh (ts : tm_state) tabs f sch,
+  hooks_wf (m_handles _ _ ts) -> forks_ok (m_handles _ _ ts) tabs ->
+  let '(trN, (tsN, tabsN)) := runN _ (tm_step zh) (tm_hash H) ts tabs sch in
+  let '(tr1, (ts1, tab1)) := run1 _ (tm_step zh) (tm_hash H) ts (tabs f) (proj f sch) in
+  proj f trN = tr1 /\
+  fork_view (m_handles _ _ tsN) (tabsN f) = fork_view (m_handles _ _ ts1) tab1.
+Proof. exact tm_fork_independent. Qed.
+Print Assumptions C14_fork_outputs_independent.
+
+(* an interleaved run of forks on HM is a history of Props/C05-C07 and of sections 1-3 above *)
+Theorem C14_interleaving_is_history : forall H zh sch hs tabs,
+  exists evs, fst (snd (runN _ (hm_step zh) (hm_hash_ev H) hs tabs sch)) = hm_run H zh hs evs.
+Proof. exact hm_runN_is_history. Qed.
+Print Assumptions C14_interleaving_is_history.
+
+(* lifted to the heap machine through the refinement (RefineProofs.abs_rel): what fork f observes
+   on HM in any interleaving of steps and hash requests of all forks — res mout outputs and the
+   hash-tree-roots computed by h_merkle on the shared heap — is what TM yields for f's events run
+   alone; the final views of f abstract to the final TM backings *)
+Theorem C14_interleaving_refines_sequential : forall H zh hs ts tabs f sch,
+  RefineProofs.abs_rel zh hs ts -> memo_ok H (m_store _ _ hs) ->
+  hooks_wf (m_handles _ _ hs) -> forks_ok (m_handles _ _ hs) tabs ->
+  let '(trN, (hsN, tabsN)) := runN _ (hm_step zh) (hm_hash_ev H) hs tabs sch in
+  let '(tr1, (ts1, tab1)) := run1 _ (tm_step zh) (tm_hash H) ts (tabs f) (proj f sch) in
+  proj f trN = tr1 /\
+  length (tabsN f) = length tab1 /\
+  forall j k x,
+    nth_error (tabsN f) j = Some k -> nth_error (m_handles _ _ hsN) k = Some x ->
+    exists k1 y,
+      nth_error tab1 j = Some k1 /\ nth_error (m_handles _ _ ts1) k1 = Some y /\
+      h_ty _ x = h_ty _ y /\ habs (m_store _ _ hsN) (h_back _ x) (h_back _ y).
+Proof. exact hm_fork_equals_tm_solo. Qed.
+Print Assumptions C14_interleaving_refines_sequential.
+
+(* HM against HM: any interleaving = the sequential run of the fork, from any valid machine state
+   (heap invariant, view.trueRoot in place, no stale memo, well-founded hooks) *)
+Theorem C14_interleaving_equals_sequential : forall H zh hs tabs f sch,
+  hm_inv zh hs -> h_cell (m_store _ _ hs) true_addr = Some (CLeaf true_chunk) ->
+  memo_ok H (m_store _ _ hs) ->
+  hooks_wf (m_handles _ _ hs) -> forks_ok (m_handles _ _ hs) tabs ->
+  let '(trN, (hsN, tabsN)) := runN _ (hm_step zh) (hm_hash_ev H) hs tabs sch in
+  let '(tr1, (hs1, tab1)) := run1 _ (hm_step zh) (hm_hash_ev H) hs (tabs f) (proj f sch) in
+  proj f trN = tr1 /\
+  length (tabsN f) = length tab1 /\
+  forall j k k' x x',
+    nth_error (tabsN f) j = Some k -> nth_error (m_handles _ _ hsN) k = Some x ->
+    nth_error tab1 j = Some k' -> nth_error (m_handles _ _ hs1) k' = Some x' ->
+    h_ty _ x = h_ty _ x' /\
+    exists n, habs (m_store _ _ hsN) (h_back _ x) n /\ habs (m_store _ _ hs1) (h_back _ x') n.
+Proof. exact hm_fork_independent. Qed.
+Print Assumptions C14_interleaving_equals_sequential.
